@@ -101,6 +101,17 @@ class Gen:
         args = [self.atom() for _ in range(fd["nparams"])]
         if fd["method"] and args[0] in ("nil",):
             args[0] = self.var()      # a typed nil conversion as receiver is outside the fragment
+        if args and forward_only and self.rng.random() < 0.3:
+            # one argument is itself a call (a spelling of tmp = h(..); g(.., tmp, ..)); the other arguments
+            # must not be package-level variables, whose read is not ordered with respect to the inner call
+            hs = [h for h in self.callees() if h > self.f]
+            h = self.rng.choice(hs)
+            i = self.rng.randrange(len(args))
+            hargs = [self.atom() for _ in range(self.p["funcs"][h]["nparams"])]
+            if self.p["funcs"][h]["method"] and hargs[0] == "nil":
+                hargs[0] = self.var()
+            args = [a if not (isinstance(a, tuple) and a[0] == "G") else "new" for a in args]
+            args[i] = ("nest", h, hargs)
         x = self.var() if self.rng.random() < 0.7 else None
         return ("call", x, g, args)
 
